@@ -92,6 +92,34 @@ CLAIMED["C09"] = {
     "design_ref": "5 (C09)",
 }
 
+CLAIMED["C11"] = {
+    "text": "Lean theorem scale_commutes, for every fragment list, legend and configuration: changing the scale by any "
+            "positive rational factor a/b turns the document built by svgRoot (containment forest, {tag} classes, "
+            "node building, root, backdrop) into the same document with every scaled number multiplied by a over a "
+            "denominator multiplied by b — kinds, counts, order, classes, flags, texts, style sheet and marker "
+            "definitions unchanged; plus cell_is_8_by_16. The model is tied to the implementation byte-for-byte end "
+            "to end at the property's scales; the relational oracle compares element multisets of the "
+            "implementation's output at two scales.",
+    "note": "Trusted: Lean kernel (+Mathlib ring); correspondence; f32 rounding of scale*coordinate for non-dyadic "
+            "constants (the 0.35 of the '#' diamond) is outside the model and compared with tolerance 2^-18.",
+    "technique": "Lean 4 proof (scaling commutes with the whole back end) over executable model + byte-level end-to-end correspondence + relational oracle",
+    "design_ref": "5 (C11)",
+}
+CLAIMED["C12"] = {
+    "text": "Lean theorems: canvas formula (width = scale*(last column+2), height = 2*scale*(last row+2), empty = 2x2 cells) "
+            "and root/backdrop carry it; decided over the REGENERATED tables: every behaviour row of the ASCII table keeps "
+            "its fragments within one cell of its own cell and reaches left/up only under a condition that needs a "
+            "neighbour on that side (guard soundness proved), glyph fragments stay inside their cell, all 22 catalogue "
+            "circles lie inside their drawing's box plus margin; text anchors lie inside their cell. The lift through "
+            "merging/endorsement is checked by the oracle on the implementation (all element extents inside the canvas, "
+            "canvas size recomputed independently from display widths). Known finding: quoted-channel texts are not "
+            "counted in the canvas (pinned test escaped_shape expects exactly that).",
+    "note": "Trusted: Lean kernel; table translator (validated against the real closures); correspondence; arc bulge "
+            "not measured; containment after merge/endorse not yet a theorem.",
+    "technique": "Lean 4 proof (canvas formula, decide +kernel over regenerated tables with a proved guard analysis) + end-to-end correspondence + containment oracle with known-finding classifier",
+    "design_ref": "5 (C12)",
+}
+
 NOT_YET = {
 }
 
